@@ -1,11 +1,13 @@
 (* Model of pdb2pqr.cif.atom_site (C10): every _atom_site row is turned into
    a fixed-column PDB-style text line which is then parsed by pdb.ATOM /
-   pdb.HETATM.  The assembly is modelled AS WRITTEN (paddings, the
-   label_alt_id / pdbx_formal_charge branches whose else-arm is an expression
-   statement without effect, 3-wide atom name after two blanks, three blanks
-   for columns 27-30, label_asym_id, auth_seq_id, no insertion code), over
-   strings, with the mmCIF dependency's missing-value convention as the
-   parameter [mv] (what PdbxReader stores for an unquoted '.' and '?').
+   pdb.HETATM.  The assembly is modelled AS WRITTEN after the repairs
+   fix_C10_P1..P4 (one blank, the atom name 4 wide with the one-letter-element
+   rule, the alt-loc column = value or blank for a missing value, label_comp_id,
+   auth_asym_id, auth_seq_id, the insertion-code column, three blanks; the
+   pdbx_formal_charge branch whose else-arm is still an expression statement
+   without effect), over strings, with the mmCIF dependency's missing-value
+   convention as the parameter [mv] (what PdbxReader stores for an unquoted '.'
+   and '?').
 
    Float parsing is an oracle: x, y, z (and occupancy, B) stay TEXT (the
    stripped column slices); integers go through int() = [py_int].
@@ -79,6 +81,16 @@ Inductive kind := KATOM | KHETATM.
 Definition kind_name (k : kind) : string :=
   match k with KATOM => "ATOM" | KHETATM => "HETATM" end.
 
+(* value in _MISSING  where  _MISSING = ("", ".", "?", None) *)
+Definition is_missing (v : pyval) : bool :=
+  match v with
+  | None => true
+  | Some s => String.eqb s "" || String.eqb s "." || String.eqb s "?"
+  end.
+(* len(v) needs a str *)
+Definition need_str (v : pyval) : res string :=
+  match v with None => Err TypeError | Some s => Ok s end.
+
 (* ---- the line assembly of cif.atom_site (same text in all four copies;
         the HETATM copies multiply "" instead of " " in the first field) ---- *)
 Definition assemble (mv : mvconv) (k : kind) (r : row) : res string :=
@@ -88,15 +100,20 @@ Definition assemble (mv : mvconv) (k : kind) (r : row) : res string :=
   (* 7-11 *)
   vid <- get mv (id r) ;;
   let l := l ++ rjust 5 (py_str vid) in
-  (* 12-13 *)
-  let l := l ++ "  " in
-  (* 14-16 *)
+  (* 12 *)
+  let l := l ++ " " in
+  (* 13-16: name = label_atom_id; element = type_symbol;
+     if len(name) < 4 and len(element) < 2: name = " " + name;  name + " " * (4 - len(name)) *)
   vnm <- get mv (label_atom_id r) ;;
-  nm <- ljust_v 3 vnm ;;
-  let l := l ++ nm in
-  (* 17: if == "." add a blank else: expression statement, nothing added *)
+  vel <- get mv (type_symbol r) ;;
+  nm <- need_str vnm ;;
+  pad <- (if (String.length nm <? 4)%nat
+          then (el <- need_str vel ;; Ok (String.length el <? 2)%nat)
+          else Ok false) ;;
+  let l := l ++ ljust 4 (if pad then " " ++ nm else nm) in
+  (* 17: " " if alt_loc in _MISSING else alt_loc *)
   valt <- get mv (label_alt_id r) ;;
-  let l := if eq_lit valt "." then l ++ " " else l in
+  let l := l ++ (if is_missing valt then " " else py_str valt) in
   (* 18-20 *)
   vcomp <- get mv (label_comp_id r) ;;
   comp <- rjust_v 3 vcomp ;;
@@ -104,13 +121,16 @@ Definition assemble (mv : mvconv) (k : kind) (r : row) : res string :=
   (* 21 *)
   let l := l ++ " " in
   (* 22 *)
-  vasym <- get mv (label_asym_id r) ;;
+  vasym <- get mv (auth_asym_id r) ;;
   asym <- rjust_v 1 vasym ;;
   let l := l ++ asym in
   (* 23-26 *)
   vseq <- get mv (auth_seq_id r) ;;
   let l := l ++ rjust 4 (py_str vseq) in
-  (* "27-30": three blanks *)
+  (* 27: " " if ins_code in _MISSING else ins_code *)
+  vins <- get mv (pdbx_PDB_ins_code r) ;;
+  let l := l ++ (if is_missing vins then " " else py_str vins) in
+  (* 28-30 *)
   let l := l ++ "   " in
   vx <- get mv (Cartn_x r) ;;
   let l := l ++ rjust 8 (py_str vx) in
@@ -353,8 +373,8 @@ Definition spec_kind (r : row) : option kind :=
   | _ => None
   end.
 
-(* the atom the row denotes (what both readers must produce) *)
-Definition fields_of_row (k : kind) (serial seq : Z) (r : row) : fields :=
+(* the atom the row denotes (what both readers must produce); [chg] = columns 79-80 stripped *)
+Definition fields_of_row_chg (k : kind) (serial seq : Z) (r : row) (chg : string) : fields :=
   {| f_kind := k; f_serial := serial;
      f_name := tok_or "" (auth_atom_id r);
      f_alt := tok_or "" (label_alt_id r);
@@ -365,7 +385,10 @@ Definition fields_of_row (k : kind) (serial seq : Z) (r : row) : fields :=
      f_x := tok_or "" (Cartn_x r); f_y := tok_or "" (Cartn_y r); f_z := tok_or "" (Cartn_z r);
      f_occ := tok_or "" (occupancy r); f_tf := tok_or "" (B_iso_or_equiv r);
      f_seg := ""; f_elem := tok_or "" (type_symbol r);
-     f_chg := strip (pdb_charge (pdbx_formal_charge r)) |}.
+     f_chg := chg |}.
+
+Definition fields_of_row (k : kind) (serial seq : Z) (r : row) : fields :=
+  fields_of_row_chg k serial seq r (strip (pdb_charge (pdbx_formal_charge r))).
 
 (* the fields the property is about *)
 Definition primary (f : fields) : kind * Z * string * string * string * string * Z * string
@@ -402,51 +425,40 @@ Definition item_eqb (a b : item) : bool :=
   | _, _ => false
   end.
 
+(* an alt-loc / insertion-code character that is literally "." or "?" cannot be told from
+   the mmCIF missing-value markers once the library hands tokens over verbatim: outside the domain *)
+Definition plain1 (s : string) : bool :=
+  okv 1 1 s && negb (String.eqb s "." || String.eqb s "?").
+
 (* the row is expressible as one PDB ATOM/HETATM record *)
 Definition expressible (r : row) : bool :=
   match spec_kind r with Some _ => true | None => false end
   && tokp (fun s => okv 1 5 s && is_int s) (id r)
   && tokp (okv 1 4) (auth_atom_id r)
-  && missing_or (okv 1 1) (label_alt_id r)
+  && missing_or plain1 (label_alt_id r)
   && tokp (okv 1 3) (auth_comp_id r)
   && tokp (okv 1 1) (auth_asym_id r)
   && tokp (fun s => okv 1 4 s && is_int s) (auth_seq_id r)
-  && missing_or (okv 1 1) (pdbx_PDB_ins_code r)
+  && missing_or plain1 (pdbx_PDB_ins_code r)
   && tokp (okv 1 8) (Cartn_x r) && tokp (okv 1 8) (Cartn_y r) && tokp (okv 1 8) (Cartn_z r)
   && tokp (okv 1 6) (occupancy r) && tokp (okv 1 6) (B_iso_or_equiv r)
   && tokp (okv 1 2) (type_symbol r)
   && missing_or noblank (pdbx_formal_charge r).
 
-(* the refuted classes, one predicate each *)
-Definition c_altloc (r : row) : bool := negb (missing (label_alt_id r)).
-(* no alternate location, but the library does not hand the code the "." it tests for *)
-Definition c_alt_unrecognised (mv : mvconv) (r : row) : bool :=
-  missing (label_alt_id r) &&
-  match get mv (label_alt_id r) with Ok v => negb (eq_lit v ".") | Err _ => true end.
-Definition c_name4 (r : row) : bool := negb (tokp (okv 1 3) (auth_atom_id r)).
-Definition c_inscode (r : row) : bool := negb (missing (pdbx_PDB_ins_code r)).
-Definition c_wide (r : row) : bool :=
-  negb (tokp (okv 1 7) (Cartn_x r) && tokp (okv 1 7) (Cartn_y r) && tokp (okv 1 7) (Cartn_z r)
-        && tokp (okv 1 5) (occupancy r)).
+(* library conventions covered: '.' and '?' arrive as one of "", ".", "?", None *)
+Definition mv_ok (mv : mvconv) : bool := is_missing (mv_dot mv) && is_missing (mv_qm mv).
+
+(* the one refuted class left: atom / residue name are still read from label_* *)
 Definition c_label_ne_auth (r : row) : bool :=
   negb (item_eqb (label_atom_id r) (auth_atom_id r)
-        && item_eqb (label_comp_id r) (auth_comp_id r)
-        && item_eqb (label_asym_id r) (auth_asym_id r)).
+        && item_eqb (label_comp_id r) (auth_comp_id r)).
 
-(* exactly the complement of the refuted classes inside [expressible] *)
-Definition guard (mv : mvconv) (r : row) : bool :=
-  expressible r
-  && negb (c_altloc r) && negb (c_alt_unrecognised mv r) && negb (c_name4 r)
-  && negb (c_inscode r) && negb (c_wide r) && negb (c_label_ne_auth r).
+(* exactly the complement of the refuted class inside [expressible] *)
+Definition guard (r : row) : bool := expressible r && negb (c_label_ne_auth r).
 
-(* additional conditions for the five trailing fields *)
-Definition guard_trailing (mv : mvconv) (r : row) : bool :=
-  tokp (okv 1 5) (B_iso_or_equiv r) && tokp (okv 1 1) (type_symbol r)
-  && match pdbx_formal_charge r with
-     | Dot | Qm => match get mv (pdbx_formal_charge r) with
-                   | Ok v => eq_lit v "?" | Err _ => false end
-     | _ => false
-     end.
+(* columns 79-80 of the PDB record are blank (no formal charge to carry) *)
+Definition charge_blank (r : row) : bool :=
+  String.eqb (strip (pdb_charge (pdbx_formal_charge r))) "".
 
 (* ---- rendering for the differential harness ----------------------------- *)
 
@@ -502,10 +514,9 @@ Definition agreesb (mv : mvconv) (r : row) : bool :=
       end
   end.
 
-Definition classes (mv : mvconv) (r : row) : list bool :=
-  [c_altloc r; c_alt_unrecognised mv r; c_name4 r; c_inscode r; c_wide r; c_label_ne_auth r].
-
-(* ---- witness rows of the refuted classes (replayed on the real code by the harness) *)
+(* ---- witness rows: w_plain .. w_label were the refutation witnesses of the classes repaired by
+        fix_C10_P1..P4 (now regression cases that must agree); w_comp / w_atomname refute what is left;
+        all replayed on the real code by the harness *)
 
 Definition mk (g id ts nm : string) (alt : item) (comp asym : string) (ins : item)
   (x y z occ b : string) (chg : item) (seq acomp aasym anm : string) : row :=
@@ -520,3 +531,6 @@ Definition w_wide  := mk "ATOM" "7" "C" "CA" Dot "LYS" "A" Qm "-100.123" "16.581
 Definition w_occ   := mk "ATOM" "7" "C" "CA" Dot "LYS" "A" Qm "-10.123" "16.581" "2.104" "1.0000" "20.55" Qm "12" "LYS" "A" "CA".
 Definition w_label := mk "HETATM" "478" "O" "O" Dot "HOH" "B" Qm "31.221" "16.581" "2.104" "1.00" "20.55" Qm "62" "HOH" "A" "O".
 Definition w_charge := mk "ATOM" "7" "N" "NZ" Dot "LYS" "A" Qm "-10.123" "16.581" "2.104" "1.00" "20.55" (Tok "1") "12" "LYS" "A" "NZ".
+Definition w_comp := mk "HETATM" "478" "O" "O" Dot "WAT" "A" Qm "31.221" "16.581" "2.104" "1.00" "20.55" Qm "62" "HOH" "A" "O".
+Definition w_atomname := mk "ATOM" "7" "C" "CA" Dot "LYS" "A" Qm "-10.123" "16.581" "2.104" "1.00" "20.55" Qm "12" "LYS" "A" "CA1".
+Definition fixed_witnesses := [w_plain; w_alt; w_name4; w_ins; w_wide; w_occ; w_label; w_charge].
